@@ -90,6 +90,9 @@ func (w *World) setup() {
 	f := 0
 	if fmax > 0 {
 		f = c.Weighted(append([]int{1}, ones(fmax, 4)...), "f")
+		if w.o.Mode == "adv" && f == 0 {
+			f = 1
+		}
 	}
 	w.dealer = c.Choose(w.n, "dealer")
 	w.nodes = make([]*Node, w.n)
@@ -100,7 +103,7 @@ func (w *World) setup() {
 	}
 	// choose Byzantine indices anywhere; for single-dealer protocols make the dealer Byzantine in half of the runs
 	left := f
-	if f > 0 && w.proto != JF && c.Bool(1, 2, "byzdealer") {
+	if f > 0 && w.proto != JF && (c.Bool(1, 2, "byzdealer") || w.o.Mode == "adv") {
 		w.nodes[w.dealer].byz = true
 		left--
 	}
@@ -115,11 +118,34 @@ func (w *World) setup() {
 	seeds := c.Sub("seeds")
 	for i, nd := range w.nodes {
 		if nd.byz {
-			w.byz[i] = &Byz{idx: i, realShares: map[int][]byte{}}
+			w.byz[i] = &Byz{idx: i, realShares: map[int][]byte{}, torsionFor: -1, bias: map[string]int{}}
+			if c.Bool(1, 2, "byz.biased") || w.o.Mode == "adv" {
+				// swarm: this participant misbehaves systematically on some message kinds, so that
+				// COMBINATIONS (held-back vector + malformed share + wrong answer ...) are not rare
+				// weights over the actions 1 omit, 2 late, 3 duplicate, 4 malformed, 5 inconsistent, 6 hold back
+				wts := map[string][]int{
+					"share":     {2, 1, 1, 2, 2, 1},
+					"vec":       {1, 1, 1, 1, 1, 3},
+					"complaint": {1, 1, 1, 1, 1, 1},
+					"answer":    {2, 1, 1, 1, 3, 1},
+				}
+				if w.o.Mode == "adv" {
+					// adversarial-template mode: the own vector is mostly sent LAST in the round
+					wts["vec"] = []int{1, 1, 0, 1, 1, 8}
+					wts["share"] = []int{2, 1, 0, 3, 3, 1}
+				}
+				for _, kind := range []string{"share", "vec", "complaint", "answer"} {
+					if c.Bool(1, 2, "byz.bias."+kind) || (w.o.Mode == "adv" && kind != "complaint") {
+						w.byz[i].bias[kind] = 1 + c.Weighted(wts[kind], "byz.bias.action")
+					}
+				}
+			}
 			if w.isDealer(i) {
 				w.makeShadow(w.byz[i], seeds.Bytes(32))
 				if c.Bool(1, 8, "truncattack") {
 					w.makeTruncated(w.byz[i], seeds.Bytes(32), 1+c.Choose(w.t, "trunc.k"))
+				} else if w.t >= 2 && c.Bool(1, 8, "torsionattack") {
+					w.byz[i].torsionFor = c.Choose(w.n, "torsion.for")
 				}
 			}
 		}
@@ -247,8 +273,16 @@ func (w *World) legalEvents() []event {
 		ev = append(ev, event{kind: "deliver", node: m.To, msg: i})
 	}
 	// injections of the Byzantine script of the current (maximal) round
-	if maxRound >= 1 && maxRound <= 3 && len(w.script[maxRound]) > 0 && minRound >= 1 {
-		ev = append(ev, event{kind: "inject", node: w.script[maxRound][0]})
+	w.injectRound = 0
+	if minRound >= 1 {
+		for r := minRound; r <= maxRound && r <= 3; r++ {
+			if len(w.script[r]) > 0 {
+				// normally r == maxRound; an entry left in an older round (never blocks the timers) is flushed first
+				w.injectRound = r
+				ev = append(ev, event{kind: "inject", node: w.script[r][0]})
+				break
+			}
+		}
 	}
 	// timers: node in the minimal round, nothing of that round pending anywhere, script exhausted
 	if minRound >= 1 && minRound <= 3 && lowestPending > minRound && len(w.script[minRound]) == 0 {
@@ -430,7 +464,7 @@ func (w *World) runProto() {
 	for {
 		steps++
 		if steps > 200000 {
-			w.viol(w.prop, "watchdog", "watchdog.steps", "run exceeded 200000 events")
+			w.viol("HARNESS", "watchdog", "watchdog.steps", "run exceeded 200000 events")
 			return
 		}
 		for _, n := range w.nodes {
@@ -464,10 +498,9 @@ func (w *World) runProto() {
 			w.deliver(w.removePending(e.msg))
 		case "inject":
 			b := w.byz[e.node]
-			r := w.maxRound
-			w.script[r] = w.script[r][1:]
+			w.script[w.injectRound] = w.script[w.injectRound][1:]
 			w.events++
-			w.inject(b, r)
+			w.inject(b, w.maxRound)
 		case "timer":
 			w.timer(w.nodes[e.node])
 		}
@@ -475,7 +508,7 @@ func (w *World) runProto() {
 	w.out.SimTime["protocol_rounds"] += 3
 	for _, n := range w.nodes {
 		if !n.ended && !n.crashed {
-			w.viol(w.prop, "watchdog", "deadlock", "simulation stalled: node %d never ended (round %d, %d pending)", n.idx, n.round, len(w.pending))
+			w.viol("HARNESS", "watchdog", "stall", "simulation stalled: node %d never ended (round %d, %d pending)", n.idx, n.round, len(w.pending))
 			return
 		}
 	}
